@@ -357,11 +357,18 @@ func (c *Ctx) clockUse(info *types.Info, call *ast.CallExpr, stack []ast.Node, r
 		}
 	case *ast.ExprStmt:
 		if call2, ok := s.X.(*ast.CallExpr); ok {
-			if sel, ok := unparen(call2.Fun).(*ast.SelectorExpr); ok {
-				if o := identObj(info, sel.X); o != nil && o.Name() == "supportLog" && o.Pkg() != nil && o.Parent() == o.Pkg().Scope() {
-					c.OK("RANDSRC", key+"/log", call.Pos(), "clock written to the support log only")
-					return
-				}
+			isLog := func(e ast.Expr) bool {
+				o := identObj(info, e)
+				return o != nil && o.Name() == "supportLog" && o.Pkg() != nil && o.Parent() == o.Pkg().Scope()
+			}
+			if sel, ok := unparen(call2.Fun).(*ast.SelectorExpr); ok && isLog(sel.X) {
+				c.OK("RANDSRC", key+"/log", call.Pos(), "clock written to the support log only")
+				return
+			}
+			// fmt.Fprint*(supportLog, ...)
+			if fn := calleeOf(info, call2); fn != nil && fn.Pkg() != nil && fn.Pkg().Path() == "fmt" && strings.HasPrefix(fn.Name(), "Fprint") && len(call2.Args) > 0 && isLog(call2.Args[0]) {
+				c.OK("RANDSRC", key+"/log", call.Pos(), "clock written to the support log only")
+				return
 			}
 		}
 	}
